@@ -66,6 +66,9 @@ func legal(st int, op byte) (results []string, next int) {
 		default:
 			return []string{"already-stopped"}, 2
 		}
+	case 'A':
+		// ActorOf from an outside goroutine: succeeds or is refused, never changes the machine's state
+		return []string{"nil", "refused"}, st
 	case 'Z':
 		switch st {
 		case 0:
@@ -179,6 +182,7 @@ func scenario(name string, threads []string, treeKind string, fine bool, bounds 
 			w = vsys.NewWorld(x, vivid.WithActorSystemContext(ctx), vivid.WithActorSystemStopTimeout(time.Minute))
 			w.Quiet = true
 			seq := 0
+			lateN := 0
 			spawned := false
 			run := func(ti int, ops string) {
 				for i := 0; i < len(ops); i++ {
@@ -193,6 +197,13 @@ func scenario(name string, threads []string, treeKind string, fine bool, bounds 
 						if err == nil && !spawned {
 							spawned = true
 							expectActors = tree(w, treeKind)
+						}
+					case 'A':
+						lateN++
+						if _, err := w.SpawnRoot(&vsys.Script{Name: fmt.Sprintf("late%d", lateN)}); err != nil {
+							c.res = "refused"
+						} else {
+							c.res = "nil"
 						}
 					case 'T':
 						c.res = classify(w.Sys.Stop())
@@ -249,6 +260,10 @@ func scenario(name string, threads []string, treeKind string, fine bool, bounds 
 				}
 				if c.op == 'C' && started {
 					cancelledAfterStart = true
+				}
+				if c.res == "stop-failed" && c.op == 'T' && !anyZ {
+					// no actor in these scenarios is slow and nobody stops with a zero timeout: giving up is a failure to terminate
+					x.Fail("stop-within-timeout", "Stop gave up with ErrorActorSystemStopFailed at virtual time %v although no actor is slow (registry at the end: %v; threads: %v)", time.Duration(c.vtimeRet), actor.VerifSys(w.Sys).Registry, r.Blocked)
 				}
 				if c.res == "stop-failed" && c.op == 'T' && c.vtimeRet < int64(time.Minute) {
 					x.Fail("stop-timeout", "Stop returned stop-failed at virtual time %v, before its timeout of 1m", time.Duration(c.vtimeRet))
@@ -336,7 +351,7 @@ func build(tier string) []*vexp.Scenario {
 		}
 	}
 	pairs := [][]string{
-		{"S", "S"}, {"S", "T"}, {"ST", "T"}, {"ST", "Z"}, {"ST", "C"}, {"ST", "S"}, {"STT", "T"}, {"SC", "T"}, {"ST", "TS"}, {"SZ", "T"}, {"SCT", "T"},
+		{"A", "T"}, {"A", "C"}, {"AA", "T"}, {"S", "S"}, {"S", "T"}, {"ST", "T"}, {"ST", "Z"}, {"ST", "C"}, {"ST", "S"}, {"STT", "T"}, {"SC", "T"}, {"ST", "TS"}, {"SZ", "T"}, {"SCT", "T"},
 	}
 	fb := []int{0, 1, 2}
 	if tier == "thorough" {
@@ -345,6 +360,9 @@ func build(tier string) []*vexp.Scenario {
 	}
 	for _, p := range pairs {
 		for _, tk := range []string{"none", "one"} {
+			if tk == "none" && strings.Contains(strings.Join(p, ""), "A") {
+				continue // ActorOf needs a started system; with a tree the concurrent part starts from the started state
+			}
 			out = append(out, scenario(fmt.Sprintf("par/%s/tree=%s", strings.Join(p, "|"), tk), p, tk, true, fb))
 		}
 	}
